@@ -320,6 +320,7 @@ def run_case(case):
         if v and first_bad[0] is None:
             first_bad[0] = list(out.choices)
         viol.extend(v)
+        return bool(v)
     stats = e3.explore(sc, case['bound'], on, max_exec=20000, count_all=bool(case.get('count_all')))
     # determinism: the default schedule replayed must give the same trace
     a, b = e3.execute(sc, []), e3.execute(sc, [])
